@@ -325,12 +325,15 @@ func TestC13(t *testing.T) {
 			return
 		}
 		mode := oneOf(rt, []string{"writer-stepped", "writer-stepped", "reader-parked"}, "mode")
+		if torn > 0 && pct(rt, 50, "torn.readerparked") {
+			mode = "reader-parked" // a reader that has consumed the fragment while a writer repairs it
+		}
 		cc := C13Case{Property: "C13", Engine: "SCHED", Test: "TestC13", Setup: setup, TornTail: torn, BigBody: big, Writer: writer, Mode: mode}
 		var viol []Violation
 		var obs []readObs
 		sig := fmt.Sprintf("%s/%s/torn=%v/big=%v", writer.Kind, fieldSig(writer), torn > 0, big > 0)
 		if mode == "reader-parked" {
-			park := oneOf(rt, []Inject{{"openat", 1, "stop", ""}, {"read", 1, "stop", ""}, {"read", 2, "stop", ""}, {"read", 3, "stop", ""}, {"pread64", 1, "stop", ""}}, "reader.park")
+			park := oneOf(rt, []Inject{{"openat", 1, "stop", ""}, {"read", 1, "stop", ""}, {"read", 2, "stop", ""}, {"read", 2, "stop", ""}, {"read", 3, "stop", ""}, {"pread64", 1, "stop", ""}}, "reader.park")
 			cc.ReaderPark = &park
 			var skipped string
 			obs, viol, skipped = readerParked(w, pre, writer, park)
